@@ -1214,7 +1214,7 @@ func (syncEngine) Generate(rng *rand.Rand, tier string) []core.Case {
 	gt := params.GenesisBlock.Header.Timestamp.Unix()
 	n, steps := 36, 45
 	if tier == "thorough" {
-		n, steps = 900, 60
+		n, steps = 680, 60 // thorough tier ≈ 30 min over 4 seeds (each op now also drains the NtfnServer and runs the C02 wallet-level oracle)
 	}
 	var cases []core.Case
 	mk := func(recw int) *syncGen {
